@@ -6,13 +6,14 @@ real sampler; oracles: callable, equal energies for equal block structure, singl
 with public calls (capping exercised), bit-reproducibility, batch-count independence."""
 
 import hashlib
+import json
 import os
 import shutil
 
 import numpy as np
 
 from mc import gridmc, samplers, vrng
-from mc.core import Result, digest
+from mc.core import Result, digest, enc
 
 ID = "C12"
 TECHNIQUE = "exhaustive enumeration of the sampler option matrix x every random stream of a virtual RNG over a 3-letter field alphabet (bounded number of varying draws), differential oracle between entry points and a public-call recomputation"
@@ -76,7 +77,9 @@ def job(cfg):
     wt = cfg["wt"]
     n, na, nb = (3, 1, 1) if wt == "restricted" else (3, 2, 1)
     sysd = samplers.system(n, na, nb, 1, cfg["seed"], wt, scale=0.7, spin_dep=(wt == "unrestricted"))
-    D = 4 if not thorough else 5
+    # thorough: 5 field positions where one comb offset is drawn per block (486 streams), 4 where two are (324 streams);
+    # 5 positions x 4 offset words (972 streams x 6 entries x 2 batch counts x 2 estimate letters) took > 100 min per cell
+    D = 4 if (not thorough or cfg["n_sr"] == 2) else 5
     tn, tu, S = make_tables(cfg, D)
     vr = vrng.install(tn, tu)
     L = samplers.lib()
@@ -382,7 +385,7 @@ class _Collector:
 def run(ctx):
     ctx.rule = ("cells = walker type {restricted+rhf, unrestricted+uhf} x block structure (n_steps,n_ene,n_sr) in {1,2}^3 (4 of 8 in quick) "
                 "x n_batch {1,2} x entry point {plain, ad, ad_norot, ad_nosr, ad_nosr_norot, 2-RDM ad_1}; inside each cell EVERY stream of the "
-                "virtual random source: all words over field letters {0,+-1.7} on D=4 (5 thorough) draw positions spread over the blocks x "
+                "virtual random source: all words over field letters {0,+-1.7} on D=4 (thorough: 5 where n_sr=1) draw positions spread over the blocks x "
                 "all words over comb-offset letters {0.2,0.8}; state = (cell, stream); non-trivial distinct = distinct block energies; "
                 "driver.afqmc itself over the option matrix ad_mode x orbital_rotation x do_sr x walker_type; the file route options -> _prep_afqmc -> driver.afqmc with the real jax.random for seeds {0,1,7} x 2 repetitions + a direct driver run")
     ctx.assume("random numbers are owned by rebinding the `random` name of ad_afqmc.sampling/propagation/driver; draw positions beyond D carry a fixed non-trivial filler")
@@ -445,6 +448,17 @@ def run(ctx):
     ctx.require_guard("non_initial_state_pairs", "non_initial_state_glue_moved_walkers", "cells_callable", "estimator_recomputed", "capped_samples", "streams_with_uneven_weights",
                       "cross_process_digests_compared", "driver_cells_callable", "driver_pairs_compared", "driver_sr_groups_differ",
                       "prep_options_checked", "prep_runs_compared", "prep_seeds_distinguishable")
+
+
+def replay_equal(a, b):
+    """Two replays of one case agree if they reach the same verdict with the same signatures.  The numbers inside a
+    'prep' case are allowed to differ: the property decided there IS reproducibility, and a run that ignores the given
+    seed differs from itself by construction."""
+    sa = sorted(x[0] for x in a[1].get("violations", []))
+    sb = sorted(x[0] for x in b[1].get("violations", []))
+    if any(x.startswith("prep/") for x in sa + sb):
+        return a[0] == b[0] and sa == sb
+    return json.dumps(enc(a[1]), sort_keys=True) == json.dumps(enc(b[1]), sort_keys=True)
 
 
 def replay(case):
